@@ -66,9 +66,14 @@ def coq_makefile():
 
 
 def coq_build(vo_targets, timeout=1500):
-    """make the given .vo files (paths relative to coq/).  Returns (ok, log)."""
-    coq_makefile()
-    rc, out = sh("timeout %d make -j%d %s" % (timeout, NPROC, " ".join(vo_targets)), cwd=COQ, timeout=timeout + 30)
+    """make the given .vo files (paths relative to coq/).  Returns (ok, log).  Serialised by a file
+    lock: several checks (or builders) may run at once and share coq/Makefile and .Makefile.d."""
+    import fcntl
+    os.makedirs(os.path.join(ROOT, "build"), exist_ok=True)
+    with open(os.path.join(ROOT, "build", ".coq.lock"), "w") as lk:
+        fcntl.flock(lk, fcntl.LOCK_EX)
+        coq_makefile()
+        rc, out = sh("timeout %d make -j%d %s" % (timeout, NPROC, " ".join(vo_targets)), cwd=COQ, timeout=timeout + 30)
     return rc == 0, out
 
 
